@@ -499,6 +499,9 @@ func init() {
 			Bounds: vsched.Bounds{Preempt: 2, Tick: 0, Data: -1, Total: -1},
 			Setup: func() ([]func(), func(*vsched.Exec) *vsched.Violation, func() string) {
 				profiles := []config.CompressConfig{{Name: compress.BestCompression, Levels: map[string]uint{"gzip": 1, "br": 1}}, {Name: "lv9", Levels: map[string]uint{"gzip": 9, "br": 9}}}
+				// a profile's levels are go.uber.org/atomic values: the only way into the window "profile published, levels
+				// not yet set" is a scheduling point right after the registry's Store
+				vsched.PostStorePoints = true
 				compress.VerifFreshRegistries()
 				compress.Reset(profiles)
 				raw := []byte(fmt.Sprintf("%x", lcg(3000, 9)))
